@@ -211,7 +211,6 @@ structure ProgSt where
   latest : Option (Nat × Nat) := none      -- (value, error) of the latest resolver return
   released : List Nat := []                -- entries whose released() has been called
   latestK : Option Nat := none
-  probe : Option (Nat × Nat) := none
   kinds : List (Nat × Bool) := []
   withRel : List Nat := []                 -- entries that returned a release function
   relSeen : List Nat := []                 -- entries whose release function has run
@@ -220,11 +219,21 @@ deriving Repr
 def lastOf (l : List (Nat × Bool × Nat × Nat)) (r : Nat) : Option (Bool × Nat × Nat) :=
   (l.find? (·.1 == r)).map (·.2)
 
+/-- the progress obligation is in force: the context is known to be set and live, a reference is
+held, and no resolver call is running -/
+def progActive (m : ProgSt) : Bool :=
+  let held := m.added.filter (fun p => !m.relInv.contains p.1)
+  let live := match m.ctx with
+    | some c => c != 0 && !m.dead.contains c
+    | none => false
+  live && !held.isEmpty && m.running.isNone
+
 /-- **C09 (progress, delivery, restart).** At a quiescence point at which the context is known to be
 set and live and a reference is held: a resolver call is running, or the latest result has been
-delivered to the target containers (probe) and to every held recording reference (late ones
-included); an entry whose `released()` was called is not the delivered one, and its release function
-(if it returned one) has run. -/
+delivered to the target containers (checked on the `probe` line, which the harness writes right
+before the quiescence line) and to every held recording reference (late ones included); an entry
+whose `released()` was called is not the delivered one, and its release function (if it returned
+one) has run. -/
 def monProgress : ObsMonitor Obs ProgSt where
   init := {}
   step := fun m o =>
@@ -245,20 +254,23 @@ def monProgress : ObsMonitor Obs ProgSt where
                     withRel := if h then k :: m.withRel else m.withRel }
     | .cbinRel k _ => some { m with relSeen := k :: m.relSeen }
     | .cbinRefcb r res v e => some { m with last := (r, res, v, e) :: m.last.filter (·.1 != r) }
-    | .probe v e => some { m with probe := some (v, e) }
+    | .probe pv pe =>
+      -- the harness reads both target containers at the quiescence point, right before it logs it
+      if progActive m then
+        match m.latest with
+        | some (v, e) =>
+          if !m.tgt || (pv, pe) == (if e = 0 then (v, 0) else (0, e)) then some m else none
+        | none => none
+      else some m
     | .quiesce _ =>
       -- released_restarts: calling released() makes the value be dropped (by the next quiescence point)
       if m.released.any (fun k => m.withRel.contains k && !m.relSeen.contains k) then none else
-      let held := m.added.filter (fun p => !m.relInv.contains p.1)
-      let live := match m.ctx with
-        | some c => c != 0 && !m.dead.contains c
-        | none => false
-      if live && !held.isEmpty && m.running.isNone then
+      if progActive m then
         match m.latest, m.latestK with
         | some (v, e), some k =>
+          let held := m.added.filter (fun p => !m.relInv.contains p.1)
           let okRefs := held.all fun p => !p.2 || lastOf m.last p.1 == some (true, v, e)
-          let okProbe := !m.tgt || m.probe == some (if e = 0 then (v, 0) else (0, e))
-          if okRefs && okProbe && !m.released.contains k then some m else none
+          if okRefs && !m.released.contains k then some m else none
         | _, _ => none
       else some m
     | _ => some m
